@@ -189,7 +189,7 @@ func c16Worker(raw json.RawMessage) *engine.Result {
 		}
 		// fresh connection: loads the same tree from the bucket alone, full scan and point lookups
 		f := x.w.NewClient("fresh")
-		if err := f.Create(engine.TableOpts{EPN: cs.Cfg.EPN, Cache: cs.Cfg.Cache}); err != nil {
+		if err := f.Create(engine.TableOpts{Columns: x.cols, EPN: cs.Cfg.EPN, Cache: cs.Cfg.Cache}); err != nil {
 			viol("reopen-failed", "fresh connection cannot open: %v [%s]", err, where)
 		} else {
 			fd, err := engine.LiveDump(f.Tab)
